@@ -200,3 +200,32 @@ PROPS["C01"] = dict(
         dict(name="histories", pkg="c01", run="TestHistories", checks=dict(quick=20000, thorough=400000), shards=dict(quick=4, thorough=16), timeout=dict(quick=300, thorough=1800)),
     ],
 )
+
+_L3_NOTE = ("Trusted: Go toolchain, rapid, the harness (internal/sim: fake connections with virtual deadlines, an MQTT codec independent of the "
+            "broker's, the quiescence detector, the wrappers around the node's log / registry / in-flight table) and the verif hook counters. "
+            "The broker node is assembled from the real constructors exactly as cmd/wasp/main.go does. A verdict is only given at detected "
+            "quiescence; a wall-clock budget overrun is 'inconclusive' (exit 2). A failing case is re-executed and only reported when it fails again.")
+
+PROPS["C02"] = dict(
+    level="exploration",
+    manifest=dict(
+        text=("End-to-end on one complete in-process broker node with a real commit log on disk: generated publish sequences (1-60 messages, QoS "
+              "0/1/2 mix, payload sizes 0/8/100/70000, 1-3 publishers, 1-3 subscribers with matching and non-matching filters) starting from an "
+              "empty log or one pre-filled to just below/above the batch (10), segment (500) and truncation (1500/2000/3000) boundaries, with or "
+              "without a consumer offset file; plus fixed long histories (1100, thorough 2300 messages) that cross those boundaries by themselves. "
+              "Oracle: every publish acknowledged to its publisher reached every subscriber with a matching filter, topic and payload intact; nothing "
+              "arrives that was not published or does not match; the log's Get(o) agrees with what Consume handed for o."),
+        note=_L3_NOTE,
+        technique="stateful property-based testing of the running broker with a delivery-set oracle (rapid generation + shrinking)",
+    ),
+    rule=("a case = (prefill size, consumer offset file, subscribers, publishers, message list, burst size). Non-trivial = the case's log offsets "
+          "include 0 or cross a multiple of 10 / 500 / a truncation point, or there are >= 2 subscribers. Distinct = distinct case."),
+    assumptions=["subscribers stay connected and auto-acknowledge", "client packet ids (20000+) are kept apart from the broker's outbound ids (the broker shares one in-flight id space per session for both directions)",
+                 "delivery order is not checked (not stated)"],
+    runs=[
+        dict(name="regress", pkg="c02", run="TestRegress", timeout=300),
+        dict(name="long", pkg="c02", run="TestLong", timeout=dict(quick=300, thorough=900)),
+        dict(name="random", pkg="c02", run="TestRandom", checks=dict(quick=480, thorough=8000), shards=dict(quick=16, thorough=16),
+             timeout=dict(quick=400, thorough=2400), shrinktime="90s"),
+    ],
+)
